@@ -83,6 +83,13 @@ func verifH_C15_server_loop() {
 	reads := verifChoice("received-bytes", 3)
 	go t.keepalive()
 	go verifPeer(&t.lastRead, reads, &lastAt)
+	go func() { // horizon: a keepalive loop that never gives up is cut after a minute (and then fails the bound below)
+		verifDaemon()
+		<-time.After(time.Minute)
+		if len(verifKACloseTimes) == 0 {
+			verifStubKAServerClose(t, nil)
+		}
+	}()
 	verifAtQuiescence(func() {
 		verifAssert(len(verifKACloseTimes) == 1, "a connection that goes silent is closed by keepalive, once")
 		c := verifKACloseTimes[0]
@@ -140,6 +147,13 @@ func verifH_C15_client_loop() {
 			t.mu.Unlock()
 		}()
 	}
+	go func() { // horizon, as on the server side
+		verifDaemon()
+		<-time.After(time.Minute)
+		if len(verifKACloseTimes) == 0 {
+			verifStubKAClientClose(t, nil)
+		}
+	}()
 	verifAtQuiescence(func() {
 		verifAssert(len(verifKACloseTimes) == 1, "a connection that goes silent while keepalive applies is closed, once")
 		c := verifKACloseTimes[0]
